@@ -934,6 +934,11 @@ def check(program, rep):
     rep.guard("C10-R3", r3_layout, program, folder, rep, w)
     rep.guard("C10-R4", r4_readback, program, folder, rep)
     rep.floor("C10-R2", 7)
+    # arguments handed to package functions under the wrong name / same-
+    # named optional parameters not passed on (NAMELINK, DESIGN.md 9.13)
+    from .. import namelink as _nl
+    rep.guard("C10-R5", _nl.rule, program, rep, "C10-R5",
+              [m for m in sorted(program.modules) if m.startswith("rig.machine_control")] + [m for m in sorted(program.modules) if m.startswith("rig.routing_table")])
     return finish(rep, program, EXPLANATION, NOT_DECIDED,
                   trusted=["struct format semantics", "documented command "
                            "word layout (count<<16 | app_id<<8 | op)"])
